@@ -129,6 +129,38 @@ Proof.
 Qed.
 
 (* ------------------------------------------------------------------------------------ *)
+(* N-D binning, step by step.  By definition  bin_sum afs t = reduce_nd afs (take_nd afs t):
+   first every listed axis is cut to its covered region, then the listed axes are reduced one
+   after the other.  The two lemmas below say what one step does to every element, for any
+   axis of a tensor of any dimension; iterating them gives the sum over the N-D block. *)
+Theorem reduce_at_block_sum a f (t : tensor Qc) o j k :
+  a < length (shape t) ->
+  o < outer_of a (shape t) -> j < len_of a (shape t) / f -> k < inner_of a (shape t) ->
+  nth ((o * (len_of a (shape t) / f) + j) * inner_of a (shape t) + k) (data (reduce_at a f t)) 0%Qc
+  = FinSum.sumn 0%Qc Qcplus f
+      (fun u => nth ((o * ((len_of a (shape t) / f) * f) + (j * f + u)) * inner_of a (shape t) + k) (data t) 0%Qc).
+Proof.
+  intros Ha Ho Hj Hk. cbn [reduce_at data].
+  rewrite nth_reduce_blocks by (try exact Hk; apply idx_lt; assumption).
+  apply (sumn_ext Qcrt). intros u Hu. f_equal. ring.
+Qed.
+
+Theorem take_at_nth {A} a L (t : tensor A) o i k d :
+  wf t -> a < length (shape t) -> L <= len_of a (shape t) ->
+  o < outer_of a (shape t) -> i < L -> k < inner_of a (shape t) ->
+  nth ((o * L + i) * inner_of a (shape t) + k) (data (take_at a L t)) d
+  = nth ((o * len_of a (shape t) + i) * inner_of a (shape t) + k) (data t) d.
+Proof.
+  intros Hw Ha HL Ho Hi Hk. cbn [take_at data].
+  replace ((o * L + i) * inner_of a (shape t) + k)
+    with (o * (L * inner_of a (shape t)) + (i * inner_of a (shape t) + k)) by ring.
+  rewrite nth_take_axis; try assumption.
+  - f_equal. ring.
+  - unfold wf in Hw. rewrite Hw, (prod_view a) by exact Ha. lia.
+  - apply idx_lt; assumption.
+Qed.
+
+(* ------------------------------------------------------------------------------------ *)
 (* resampling along one axis of an N-D buffer: every output line is the one-axis [resample]
    of the corresponding input line, so the one-axis theorems hold line by line for any axis of
    an array of any dimension *)
